@@ -203,7 +203,7 @@ def correspondence(rep, rng, cases, harness, driver, stats, n_mut):
         for _m in range(rng.choice([1, 1, 1, 2, 3])):
             t, kd = G.mutate(t, rng)
             kinds.append(kd)
-        if t[0] == "obj":
+        if t[0] == "obj" and not G.dup_in_ignored_region(t):
             docs.append((t, "+".join(kinds)))
     rres = fw.run_rust(harness, [{"cmd": "from_json", "id": "p0", "json_str": G.tree_text(t)} for t, _ in docs])
     mcmds = [[Sym("est_to_template"), Str("p0"), G.tree_sx(t)] for t, _ in docs]
@@ -286,7 +286,7 @@ def set_correspondence(rep, rng, harness, driver, stats, n_docs, n_mut, depth):
         for _m in range(rng.choice([1, 1, 2])):
             t, kd = G.mutate(t, rng)
             kinds.append(kd)
-        if t[0] == "obj":
+        if t[0] == "obj" and not G.dup_in_ignored_region(t):
             docs.append((t, "+".join(kinds)))
     texts = [G.tree_text(t) for t, _ in docs]
     rres = fw.run_rust(harness, [{"cmd": "from_json", "kind": "set", "json_str": x} for x in texts])
@@ -495,7 +495,8 @@ def run(rep, tier, seed):
         "set_shapes": {str(k): sum(1 for s in sets if s["n"] == k) for k in sorted({s["n"] for s in sets})},
         "samples": [{k: v for k, v in c.items() if k not in ("entities", "requests")} for c in cmds[:2]],
     }
-    rep.assumptions = ["nesting depth of generated conditions <= %d" % (4 if quick else 6),
+    rep.assumptions = ["model correspondence: documents with duplicate keys inside a scope constraint or a link's values are filtered (serde does not look into ignored fields of buffered enums; json_nodup is a blanket rule)",
+                       "nesting depth of generated conditions <= %d" % (4 if quick else 6),
                        "PST and protobuf: oracle only (no Coq model; c06_pst / c06_proto not proved)",
                        "error messages are not compared"]
 
